@@ -19,3 +19,127 @@ INT_LITERALS = ["0", "1", "7", "08", "007", "0x10", "0X1f", "0b101", "0o17", "01
                 "9223372036854775807", "9223372036854775808", "-9223372036854775808", "-9223372036854775809",
                 "18446744073709551615", "18446744073709551616", "1e3", "1.0", " 1", "1 ", "0x", "0b", "0o", "0b2", "09", "0_7",
                 "１", "１２", "٣", "", "a", "1a", "0xg", "00", "0_0", "1_0_0", "0X_F", "0B1", "0O7", "0x1_", "١"]
+
+# ---------------------------------------------------------------- configuration trees
+
+KEYS = ["a", "b", "c", "l", "m"]
+PRIMS = [lambda r: I(-r.below(5)), lambda r: U(1 + r.below(9)), lambda r: S(r.pick(["x", "y", "", "v w"])),
+         lambda r: B(r.chance(0.5)), lambda r: F(r.pick([0x3ff8000000000000, 0x4000000000000000, 0xbfe0000000000000]))]
+
+
+def rand_leaf(rng):
+    if rng.chance(0.15):
+        return None
+    return rng.pick(PRIMS)(rng)
+
+
+def rand_tree(rng, depth, allow_empty=True):
+    """A plain data tree (protocol GoData): maps over a small key alphabet, lists, primitives, nil."""
+    k = rng.below(10)
+    if depth <= 0 or k < 3:
+        return rand_leaf(rng)
+    if k < 7:
+        n = rng.below(4) if allow_empty else 1 + rng.below(3)
+        keys = rng.shuffle(KEYS)[:n]
+        return M([(key, rand_tree(rng, depth - 1)) for key in keys])
+    n = rng.below(4) if allow_empty else 1 + rng.below(3)
+    return A([rand_tree(rng, depth - 1) for _ in range(n)])
+
+
+def rand_dict(rng, depth, minkeys=1):
+    n = minkeys + rng.below(4 - minkeys + 1)
+    keys = rng.shuffle(KEYS)[:n]
+    return M([(key, rand_tree(rng, depth - 1)) for key in keys])
+
+
+def mutate_tree(rng, t, depth):
+    """A second tree that conflicts with t at shared positions: same keys with changed shape,
+    lists of other lengths, nil / empty containers, extra and missing keys."""
+    k = rng.below(10)
+    if k < 2 or depth <= 0:
+        return rand_tree(rng, depth)
+    if isinstance(t, dict) and "m" in t:
+        out = []
+        for key, v in t["m"]:
+            r = rng.below(10)
+            if r < 2:
+                continue
+            if r < 7:
+                out.append((key, mutate_tree(rng, v, depth - 1)))
+            else:
+                out.append((key, rand_tree(rng, depth - 1)))
+        for key in KEYS:
+            if all(key != k2 for k2, _ in out) and rng.chance(0.2):
+                out.append((key, rand_tree(rng, depth - 1)))
+        return M(rng.shuffle(out))
+    if isinstance(t, dict) and "a" in t:
+        xs = [mutate_tree(rng, v, depth - 1) if rng.chance(0.7) else rand_tree(rng, depth - 1) for v in t["a"]]
+        r = rng.below(4)
+        if r == 0 and xs:
+            xs = xs[:rng.below(len(xs))]
+        elif r == 1:
+            xs = xs + [rand_tree(rng, depth - 1) for _ in range(1 + rng.below(2))]
+        return A(xs)
+    return rand_tree(rng, depth)
+
+
+def add_reps(rng, t):
+    """Decorate a tree with random Go representations (ignored by the model)."""
+    if not isinstance(t, dict):
+        return t
+    t = dict(t)
+    if "m" in t:
+        t["m"] = [[k, add_reps(rng, v)] for k, v in t["m"]]
+        r = rng.below(10)
+        if r < 2: t["rep"] = "mii"
+        elif r < 4: t["rep"] = "typed"
+        elif r < 5 and not t["m"]: t["rep"] = "nil"
+        if rng.chance(0.15): t["ptr"] = True
+    elif "a" in t:
+        t["a"] = [add_reps(rng, v) for v in t["a"]]
+        r = rng.below(10)
+        if r < 2: t["rep"] = "array"
+        elif r < 4: t["rep"] = "typed"
+        elif r < 5 and not t["a"]: t["rep"] = "nil"
+        if rng.chance(0.1): t["ptr"] = True
+    elif "i" in t:
+        t["rep"] = rng.pick(["int", "int8", "int16", "int32", "int64"])
+    elif "u" in t:
+        t["rep"] = rng.pick(["uint", "uint8", "uint16", "uint32", "uint64", "uint64"])
+    return t
+
+
+def as_struct(rng, t):
+    """Render a dict tree as a struct source (top level only): {"st": [[GoName, tag, v]...]}."""
+    fields = []
+    for k, v in t["m"]:
+        if rng.chance(0.5):
+            fields.append([k.upper() + "x", k, v])      # renamed by tag
+        else:
+            fields.append([k.upper(), "", v])          # lower-cased field name
+    return {"st": fields}
+
+
+def shape_of(t):
+    if t is None: return "n"
+    if "m" in t: return "{}" if not t["m"] else "{"
+    if "a" in t: return "[]" if not t["a"] else "["
+    return "p"
+
+
+def conflict_sig(a, b, depth=0):
+    """multiset of per-key conflict kinds between two trees"""
+    out = set()
+    if isinstance(a, dict) and isinstance(b, dict) and "m" in a and "m" in b:
+        da, db = dict((k, v) for k, v in a["m"]), dict((k, v) for k, v in b["m"])
+        for k in da:
+            if k in db:
+                out.add(shape_of(da[k]) + ">" + shape_of(db[k]))
+                if depth < 2:
+                    out |= conflict_sig(da[k], db[k], depth + 1)
+    elif isinstance(a, dict) and isinstance(b, dict) and "a" in a and "a" in b:
+        la, lb = len(a["a"]), len(b["a"])
+        out.add("len" + ("<" if la < lb else ">" if la > lb else "="))
+        for x, y in zip(a["a"], b["a"]):
+            out.add(shape_of(x) + ">" + shape_of(y))
+    return out
